@@ -159,7 +159,7 @@ P["C12"] = dict(cat="proof",
          "accepted calls, judge soundness for compose (formula result or refusal) and for the decompose-then-compose round trip (components of "
          "documented shape recompose to the original under the returned maps; library compose agrees). Tie: valid and invalid operands; "
          "all bipartitions with the required rank profile of small matrices, random and structured larger ones, characteristic 2 and 3.",
-    note=NOTE_COMMON + "TU preservation of sums/components is checked per instance by the proved oracle (<= 7x7), not proved in general; for Delta/Y-sums only "
+    note=NOTE_COMMON + "TU preservation is proved for 2-sums (TuTwoSum.v, both directions, all sizes); for Delta/Y/3-sums it is checked per instance by the proved oracle (<= 7x7), for Delta/Y-sums only "
          "on separations whose parts have >= 4 elements and admit the connecting path on both sides.",
     tech="Coq proof of block-formula specs + differential correspondence", ref="DESIGN.md C12")
 P["C20"] = dict(cat="proof",
